@@ -30,5 +30,7 @@ def table():
         add('kore', kore.sorted_exists(k)); add('kore', kore.kore_exists(k)); add('substitution', substitution.forall(k))
     for k in range(4):
         add('kore', kore.nary_app(P.Symbol('f%d' % k), k)); add('kore', kore.nary_app(P.Symbol('c%d' % k), k, True))
+    # wide applications (K configurations have dozens of cells): two-digit argument positions in the format string
+    add('kore', kore.nary_app(P.Symbol('f11'), 11)); add('kore', kore.nary_app(P.Symbol('c12'), 12, True))
     _TABLE = out
     return out
